@@ -29,7 +29,8 @@ def gen_value(rng, depth, json_safe):
     r = rng.random()
     if depth <= 0 or r < 0.45:
         if json_safe:
-            return rng.choice([None, True, False, 1.5, "", "x", "123", "_", "a_b:c", 7, -3, float("inf"), float("-inf"), 1e308])
+            return rng.choice([None, True, False, 1.5, "", "x", "123", "_", "a_b:c", 7, -3, float("inf"), float("-inf"), 1e308,
+                               "caf\u00e9", "\u03c0", "\u5546\u54c1"])      # text outside ASCII
         if r < 0.15:
             return rng.choice(BYTES)
         if r < 0.25:
